@@ -52,6 +52,8 @@ void	*__real_calloc(size_t, size_t);
 void	__real_free(void *);
 long	__real_sysconf(int);
 
+int	sc_small_pipes = 0;	/* harness option: every pipe the code under test creates holds one page */
+
 /* ------------------------------------------------------------------ threads */
 #define OP_NONE		0
 #define OP_START	1
@@ -62,6 +64,7 @@ long	__real_sysconf(int);
 #define OP_EPOLL	6
 #define OP_QUIESCENT	7
 #define OP_GATE		8
+#define OP_WRITE_BLK	9	/* write() on a descriptor without O_NONBLOCK: enabled while the kernel says it is writable */
 
 typedef struct sc_thr_s {
 	int	used, finished, joined;
@@ -235,6 +238,11 @@ thr_enabled(int t, int others_enabled) {
 		return (!others_enabled);
 	case OP_GATE:
 		return (0 != *(volatile int *)th->obj);
+	case OP_WRITE_BLK:
+		pfd.fd = th->iarg;
+		pfd.events = POLLOUT;
+		pfd.revents = 0;
+		return (poll(&pfd, 1, 0) > 0);
 	default:
 		return (1);
 	}
@@ -600,7 +608,12 @@ __wrap_pipe2(int fds[2], int flags) {
 			return (-1);
 		}
 	}
-	return (__real_pipe2(fds, flags));
+	{
+		int rc = __real_pipe2(fds, flags);
+		if (0 == rc && sc_small_pipes)	/* one page: a queue of 32-byte packets is full after 128 */
+			fcntl(fds[1], F_SETPIPE_SZ, 4096);
+		return (rc);
+	}
 }
 
 int
@@ -636,7 +649,11 @@ __wrap_write(int fd, const void *buf, size_t n) {
 	static const int errs[] = { 0, EAGAIN, EPIPE, EBADF };
 
 	if (sc_active && sc_my_id >= 0) {
-		sc_point_ex(OP_GENERIC, NULL, 0, "write");
+		int fl = fcntl(fd, F_GETFL);
+		if (fl >= 0 && 0 == (fl & O_NONBLOCK))	/* a blocking descriptor: the call waits for room; nobody making room = deadlock */
+			sc_point_ex(OP_WRITE_BLK, NULL, fd, "write(blocking)");
+		else
+			sc_point_ex(OP_GENERIC, NULL, 0, "write");
 		if (kth_fail(0)) {
 			errno = EAGAIN;
 			return (-1);
